@@ -241,3 +241,39 @@ def render(dat, st, flavour, order, mesh_inline=True):
     lines = [out[0]] + [(x.ljust(80) if st.pad80 else x.rstrip()) for x in out[1:]]
     if st.pad80: lines[0] = lines[0].ljust(80)
     return '\n'.join(lines) + '\n', mesh
+
+
+def render_binary(dat, rock_indices=True):
+    """MESHA / MESHB as TOUGH2-MP writes them (Fortran unformatted sequential records: 4-byte
+    length, payload, 4-byte length), packed with struct only.  -> (bytes of MESHA, bytes of MESHB)"""
+    import struct
+    g = dat.grid
+
+    def rec(fmt, vals):
+        body = struct.pack('<' + fmt, *vals)
+        n = struct.pack('<i', len(body))
+        return n + body + n
+
+    z = lambda v: 0.0 if v is None else float(v)
+    nel, ncon = len(g.blocklist), len(g.connectionlist)
+    index = dict((b.name, i + 1) for i, b in enumerate(g.blocklist))
+    a = rec('i', [nel])
+    for col in ([z(b.volume) for b in g.blocklist], [z(b.ahtx) for b in g.blocklist], [z(b.pmx) for b in g.blocklist],
+                [z(b.centre[0]) for b in g.blocklist], [z(b.centre[1]) for b in g.blocklist], [z(b.centre[2]) for b in g.blocklist]):
+        a += rec('%dd' % nel, col)
+    for col in ([z(k.distance[0]) for k in g.connectionlist], [z(k.distance[1]) for k in g.connectionlist], [z(k.area) for k in g.connectionlist],
+                [z(k.dircos) for k in g.connectionlist], [z(k.sigma) for k in g.connectionlist]):
+        a += rec('%dd' % ncon, col)
+    a += rec('%di' % ncon, [k.direction for k in g.connectionlist])
+    a += rec('8s' * ncon, [a3i2(k.block[0].name).ljust(8).encode() for k in g.connectionlist])
+    a += rec('8s' * ncon, [a3i2(k.block[1].name).ljust(8).encode() for k in g.connectionlist])
+    b = rec('2i', [ncon, -nel if rock_indices else nel])
+    b += rec('8s' * nel, [a3i2(x.name).ljust(8).encode() for x in g.blocklist])
+    if rock_indices:
+        rocks = [r.name for r in g.rocktypelist]
+        b += rec('%di' % nel, [rocks.index(x.rocktype.name) + 1 for x in g.blocklist])
+    else:
+        b += rec('5s' * nel, [x.rocktype.name.encode() for x in g.blocklist])
+    b += rec('%di' % ncon, [index[k.block[0].name] for k in g.connectionlist])
+    b += rec('%di' % ncon, [index[k.block[1].name] for k in g.connectionlist])
+    return a, b
